@@ -53,6 +53,8 @@ type vfSideShadow struct {
 	cumAcked    uint32
 	haveCum     bool
 	lastARwnd   [2]uint32
+	t3Pending   *vfHookEv // last T3-rtx expiry with data outstanding
+	t3Tx, t3Fwd bool      // since then: the earliest outstanding TSN was written / a FORWARD-TSN was written
 	nARwnd      int
 	maxSackCumSeen uint32
 	ownAcked    map[uint32]bool // TSNs this side reported in gap blocks of SACKs it wrote
@@ -194,11 +196,42 @@ func (s *vfSim) runMonitors(mc vfMonCfg) *vfMonOut {
 				}
 				sh.admitCwnd[sn.NextTSN] = sn.CWND
 				sh.admitProbe[sn.NextTSN] = true
-			case vfEvT3Before, vfEvFRBefore:
+			case vfEvT3Before:
+				// C19: between two expiries of T3-rtx with the same earliest outstanding chunk, that chunk was
+				// retransmitted (whatever cwnd and the peer's window say, one chunk may always be in flight)
+				if p := sh.t3Pending; p != nil && h.Snap.InflightN > 0 && p.Snap.CumAck == h.Snap.CumAck && h.Snap.AdvPeer == h.Snap.CumAck && p.Snap.AdvPeer == p.Snap.CumAck {
+					res.count("c19_t3_pairs_checked", 1)
+					if !sh.t3Tx && !sh.t3Fwd {
+						res.violate("C19", "t3/no-retransmission-between-expiries", "side %d: T3-rtx expired at %v and again at %v with TSN %d the earliest outstanding chunk both times (cwnd %d, rwnd %d, %d chunks in flight), and that chunk was not written to the wire in between: data is no longer retransmitted", h.Side, p.T, h.T, h.Snap.CumAck+1, h.Snap.CWND, h.Snap.RWND, h.Snap.InflightN)
+					}
+				}
+				sh.t3Pending, sh.t3Tx, sh.t3Fwd = nil, false, false
+				if h.Snap.InflightN > 0 {
+					sh.t3Pending = h
+				}
+			case vfEvFRBefore:
 				// paired with the following After event of the same side
 			case vfEvT3After:
 				res.seen("T3")
 				res.count("c10_t3", 1)
+				// C19: a SACK that acknowledges the earliest outstanding chunk restarts T3-rtx with the current RTO,
+				// which is never below RTO.Min (or RTO.Max if that is configured lower): no expiry sooner after it
+				list := ces[h.Side]
+				for i := sort.Search(len(list), func(k int) bool { return list[k].Seq > h.Seq }) - 1; i >= 1; i-- {
+					if list[i].Cum == list[i-1].Cum {
+						continue
+					}
+					low := time.Second
+					if m := cfgs[h.Side].RTOMaxMs; m > 0 && time.Duration(m*float64(time.Millisecond)) < low {
+						low = time.Duration(m * float64(time.Millisecond))
+					}
+					res.count("c19_t3_after_ack_checked", 1)
+					if d := h.T - list[i].T; d < low {
+						res.violate("C19", "t3/expired-soon-after-ack", "side %d: T3-rtx expired at %v, only %v after a SACK that advanced the cumulative ack point to %d was processed (%v): the timer was not restarted for the new earliest outstanding chunk (an RTO is never below %v)", h.Side, h.T, d, list[i].Cum, list[i].T, low)
+					}
+
+					break
+				}
 				before := vfFindBefore(hooks, h, vfEvT3Before)
 				m := uint32(mtu(h.Side)) //nolint:gosec
 				wantCwnd := m
@@ -347,6 +380,9 @@ func (s *vfSim) runMonitors(mc vfMonCfg) *vfMonOut {
 					if c.PPI == 50 && c.U && (c.Type == vfCtData || c.B) {
 						res.violate("C06", "dcep/unordered", "side %d wrote a DCEP chunk (TSN %d) with the U flag", side, c.TSN)
 					}
+					if p := sh.t3Pending; p != nil && c.TSN == p.Snap.CumAck+1 {
+						sh.t3Tx = true
+					}
 					ti := sh.tx[c.TSN]
 					if ti == nil {
 						ti = &vfTxInfo{
@@ -414,6 +450,7 @@ func (s *vfSim) runMonitors(mc vfMonCfg) *vfMonOut {
 				case vfCtForwardTSN, vfCtIForwardTSN:
 					res.seen("forward-tsn")
 					res.count("c07_fwdtsn_written", 1)
+					sh.t3Fwd = true
 					if (c.Type == vfCtIForwardTSN) != wantIL {
 						res.violate("C17", "emit/wrong-fwd-kind", "side %d wrote %s but interleaving negotiated=%v", side, c.kind(), wantIL)
 					}
